@@ -78,7 +78,7 @@ static Op decode_op(FuzzedDataProvider &f, int nmods, bool script, int kind) {
     case P::O_TELL: case P::O_BCAST: o.a = pick(f, {0, 0, 0, 1}); break;
     case P::O_PUB: o.a = pick(f, {0, 0, 1, 1, 2, 2, 3, 7, 8, 16}); o.b = pick(f, {0, 0, 0, 1}); break;
     case P::O_FLOOD: o.a = pick(f, {8191, 8193, 9000}); break;
-    case P::O_BECOME: o.a = f.ConsumeIntegralInRange<long>(0, 3); break;
+    case P::O_BECOME: o.a = pick(f, {0, 0, 1, 1, 2, 2, 3, 3, 100, 102}); break; // (>= 100: the stack node allocation is refused)
     case P::O_STASH: case P::O_REF_EVT: o.a = f.ConsumeIntegralInRange<long>(0, 3); break;
     case P::O_UNSTASH: o.a = pick(f, {1, 1, 2, 2, 3, 5, 0}); break;
     case P::O_BATCH_SIZE: o.a = pick(f, {0, 1, 2, 2, 3, 3, 5, -1}); break;
